@@ -77,7 +77,12 @@ func checkC23(c *Ctx) (string, []string) {
 	allInstrs(create, func(in ssa.Instruction) {
 		if call, ok := in.(*ssa.Call); ok {
 			if b, ok := call.Call.Value.(*ssa.Builtin); ok && b.Name() == "append" && len(call.Call.Args) == 2 {
-				if abbr(exprStr(call.Call.Args[0], shapeOpts)) == nt && abbr(exprStr(call.Call.Args[1], shapeOpts)) == S+"GetPreviousTicketsAccumulator()" {
+				// the value whose parts are exactly (new tickets, carried-over accumulator), however the buffer was sized
+				var ps []string
+				for _, p := range catValues(call) {
+					ps = append(ps, abbr(exprStr(p, shapeOpts)))
+				}
+				if strings.Join(ps, " ⌢ ") == nt+" ⌢ "+S+"GetPreviousTicketsAccumulator()" {
 					mergeV = call
 				}
 			}
